@@ -396,9 +396,9 @@ Proof.
 Qed.
 
 (* ---------- step ---------- *)
-Definition mk_event (s1 : st) (ns : server) (tcp : bool) (backoff T : Z) (e : env) (ob : oreply) : event :=
+Definition mk_event (s1 : st) (ns : server) (tcp : bool) (backoff T : Z) (e : env) (ob : oreply) (clock2 : Z) : event :=
   {| ev_server := sv_id ns; ev_tcp := tcp; ev_backoff := backoff; ev_timeout := T;
-     ev_qname := s_qname s1; ev_idx := e_pos e; ev_start := e_clock e + backoff; ev_obs := ob |}.
+     ev_qname := s_qname s1; ev_idx := e_pos e; ev_start := e_clock e + backoff; ev_end := clock2; ev_left := length (s_qnames s1); ev_obs := ob |}.
 
 Definition question_of (c : cfg) (s : st) : question :=
   {| q_name := s_qname s; q_class := c_rdclass c; q_type := c_rdtype c |}.
@@ -409,7 +409,7 @@ Lemma step_inl : forall sc c start s e s' e',
     next_nameserver c s = NSOk s1 ns tcp backoff /\
     compute_timeout start (c_lifetime c) (c_timeout c) (e_clock e + backoff) = inl T /\
     observe (sc (e_pos e)) T (e_clock e + backoff) (question_of c s1) = (ob, clock2) /\
-    e' = {| e_clock := clock2; e_pos := S (e_pos e); e_trace := e_trace e ++ [mk_event s1 ns tcp backoff T e ob] |} /\
+    e' = {| e_clock := clock2; e_pos := S (e_pos e); e_trace := e_trace e ++ [mk_event s1 ns tcp backoff T e ob clock2] |} /\
     (query_result c s1 clock2 (Z.of_nat (e_pos e)) ob = QCont s' \/
      exists s2, query_result c s1 clock2 (Z.of_nat (e_pos e)) ob = QNext s2 /\
                 next_request c s2 (s_qnames s2) clock2 = NRequest s').
@@ -445,7 +445,7 @@ Lemma step_inr : forall sc c start s e f s' e',
      next_nameserver c s = NSOk s1 ns tcp backoff /\
      compute_timeout start (c_lifetime c) (c_timeout c) (e_clock e + backoff) = inl T /\
      observe (sc (e_pos e)) T (e_clock e + backoff) (question_of c s1) = (ob, clock2) /\
-     e' = {| e_clock := clock2; e_pos := S (e_pos e); e_trace := e_trace e ++ [mk_event s1 ns tcp backoff T e ob] |} /\
+     e' = {| e_clock := clock2; e_pos := S (e_pos e); e_trace := e_trace e ++ [mk_event s1 ns tcp backoff T e ob clock2] |} /\
      ( (exists a, query_result c s1 clock2 (Z.of_nat (e_pos e)) ob = QAnswer s' a /\ f = FAnswer a) \/
        (exists a, query_result c s1 clock2 (Z.of_nat (e_pos e)) ob = QNoAnswer s' a /\ f = FNoAnswer a) \/
        (query_result c s1 clock2 (Z.of_nat (e_pos e)) ob = QYX s' /\ f = FYXDOMAIN) \/
